@@ -712,6 +712,88 @@ def user_call_wakes_reactor(is_requestor: bool, op: int, idle_expired: bool, pro
         assoc_mod.time = saved
 
 
+class _ReactorEndsWhileWaiting:
+    """pynetdicom.association.time stand-in for a user call that waits for the reactor: the first time the call
+    sleeps, the running reactor thread (just past its checkpoint) gets to run and ENDS - the peer's A-ABORT indication
+    is queued and one pass of the REAL Association._run_reactor processes it (flags, event, kill()).  Afterwards
+    nothing else runs: a wait that does not end within a few more sleeps never ends."""
+
+    class Hang(Exception):
+        pass
+
+    def __init__(self, assoc, dul):
+        self.assoc, self.dul, self.n, self.busy = assoc, dul, 0, False
+
+    def sleep(self, s):
+        if self.busy:
+            return
+        self.n += 1
+        if self.n == 1:
+            self.busy = True
+            try:
+                gate = _WakeGate(self.assoc)
+                gate.ran = 1                               # set() must not re-enter the reactor
+                saved = self.assoc._reactor_checkpoint
+                was_cleared = not saved.is_set()
+                self.assoc._reactor_checkpoint = gate
+                self.dul.to_user_queue.put(_prim(ABORT))
+                try:
+                    self.assoc._run_reactor()
+                except _WakeGate.Park:
+                    pass
+                finally:
+                    self.assoc._reactor_checkpoint = saved
+                    if gate.flag and was_cleared:
+                        saved.set()                        # kill() releases the checkpoint
+            finally:
+                self.busy = False
+        elif self.n > 20:
+            raise _ReactorEndsWhileWaiting.Hang()
+
+    def __getattr__(self, n):
+        import time
+        return getattr(time, n)
+
+
+@harness(
+    "C06",
+    timeout=(60, 300),
+    functions=["association:Association.release", "association:Association.abort", "association:Association.kill",
+               "association:Association._run_reactor", "acse:ACSE.negotiate_release"],
+    bounds="role; a user call (release / abort) that has passed its is_established check and waits for the reactor to park, "
+           "while the running reactor ends because of a peer abort (one pass of the real _run_reactor incl. the real kill() "
+           "runs at the first sleep of the wait): the call returns instead of waiting for ever",
+    stubs=["assoc.dul is a ScriptDUL; pynetdicom.association.time replaced by a stand-in whose first sleep() runs the "
+           "reactor pass and whose 20th sleep() reports a hang"],
+    outside="other points at which the reactor may end; which outcome is reported when release() races a peer abort "
+            "(co-simulation)",
+)
+def user_call_while_reactor_ends(is_requestor: bool, op: int, seq: List[int]) -> bool:
+    """
+    pre: 0 <= op <= 1
+    pre: len(seq) <= 1 and all(0 <= x <= 4 for x in seq)
+    post: _ == True
+    """
+    req = True if is_requestor else False
+    with untraced():
+        assoc, dul, log = _make_side(req)
+        assoc._is_paused = False          # the reactor is running
+    dul.script = list(seq)
+    saved = assoc_mod.time
+    assoc_mod.time = _ReactorEndsWhileWaiting(assoc, dul)
+    try:
+        try:
+            if op == 0:
+                assoc.release()
+            else:
+                assoc.abort()
+        except _ReactorEndsWhileWaiting.Hang:
+            return False                  # the call waits for ever for a reactor that has already ended
+        return not assoc.is_established
+    finally:
+        assoc_mod.time = saved
+
+
 def kf_user_calls(is_requestor, ops, seq):
     """`match` helper of the known-finding entry (concrete replay)."""
     outcome = None
